@@ -56,7 +56,7 @@ def jobs(tier, seed):
     if tier == "thorough":
         cases = [(k, d, s_) for k in (1, 2, 3, 4) for d in range(64) for s_ in (0, 1)]
     else:
-        cases = [(k, d, rnd.randrange(2)) for k in (1, 2, 3, 4) for d in [27, rnd.choice(POOL[1:])]]
+        cases = [(k, rnd.choice(POOL), rnd.randrange(2)) for k in (1, 2, 3, 4)]
     if os.environ.get("C18_SUFFIX_EXP"):
         k, s_, men = [int(x) for x in os.environ["C18_SUFFIX_EXP"].split(":")]
         name = f"c18_suffix_{KINDS[k]}_{'wb'[s_]}_m{men}"
@@ -70,7 +70,7 @@ def jobs(tier, seed):
     for k, d, s_ in cases:
         name, src = inst(n, k, d, s_)
         js.append(Job(name, f"disambiguation class == standard for {KINDS[k]} moves to {SQN(d)} ({'white' if s_ == 0 else 'black'}), <= {n} like men, any valid position",
-                      gen=src, timeout=3000, mem_gb=24, checks="functional", witness=False, min_covers=1, params={"max_like_men": n, "kind": KINDS[k], "to": SQN(d)}))
+                      gen=src, timeout=3000, mem_gb=30, weight_gb=12, checks="functional", witness=False, min_covers=1, params={"max_like_men": n, "kind": KINDS[k], "to": SQN(d)}))
     return js
 
 
